@@ -462,6 +462,88 @@ class C10:
                 ctx.bad("R10.5", file, "annotation_to_clip_annotation", f"{show(cs[0].term)[:80]}",
                         f"{fn} must be applied unconditionally to every element with adjust_time_expansion / created_by forwarded", cs[0].lineno)
 
+    # ------------------------------------------------------------------ R10.9
+    def check_annotation_dispatch(self):
+        """the annotation-level converters pick the element converter by the requested format and accept what is convertible:
+        'bbox' -> Annotation(bboxes=...), 'seq' -> Annotation(seq=...), anything else is rejected; an annotation with a recording
+        handed in (or a notated path to load it from) is imported, one with neither is rejected"""
+        ctx = self.ctx
+        from sa.peval import truth as _truth
+        s = ctx.summ.of_func(ANN, "annotation_from_clip_annotation")
+        file = s.module.relpath
+        site = f"{file}:{s.node.lineno} annotation_from_clip_annotation"
+        fmt = ("param", "annotation_fmt")
+        okd = True
+        for val, want_kw in (("bbox", "bboxes"), ("seq", "seq"), ("other", None)):
+            env = {fmt: val}
+            rets = [r for r in s.returns if _truth(peval(r.live, env)) is not False]
+            rais = [r for r in s.raises if not r.in_handler and _truth(peval(r.live, env)) is not False]
+            und = [x for x in rets + rais if _truth(peval(x.live, env)) is None]
+            if und:
+                ctx.undec("R10.9", site, f"annotation_fmt={val!r}: path condition not decided by the format alone: {show(und[0].live)[:70]}")
+                okd = False
+                continue
+            if want_kw is None:
+                if rets or not rais:
+                    ctx.bad("R10.9", file, "annotation_from_clip_annotation", f"annotation_fmt={val!r}",
+                            "an unknown annotation format is not rejected", s.node.lineno)
+                    okd = False
+                continue
+            kws = [set(callkw(r.term)) if r.term[0] == "call" else set() for r in rets]
+            other = "seq" if want_kw == "bboxes" else "bboxes"
+            if rais or len(rets) != 1 or want_kw not in kws[0] or other in kws[0]:
+                ctx.bad("R10.9", file, "annotation_from_clip_annotation", f"annotation_fmt={val!r}",
+                        f"with annotation_fmt={val!r} the function {'raises' if rais else 'returns ' + (show(rets[0].term)[:60] if rets else 'nothing')}: "
+                        f"it must return crowsetta.Annotation({want_kw}=...) built by the {'bounding box' if want_kw == 'bboxes' else 'sequence'} exporter",
+                        s.node.lineno, witness={"annotation_fmt": val})
+                okd = False
+        if okd:
+            ctx.ok("R10.9", site, "'bbox' -> Annotation(bboxes=...), 'seq' -> Annotation(seq=...), anything else rejected")
+        s = ctx.summ.of_func(ANN, "annotation_to_clip_annotation")
+        site = f"{file}:{s.node.lineno} annotation_to_clip_annotation"
+        rec, npath = ("param", "recording"), ("attr", ("param", "annot"), "notated_path")
+
+        def decide(t_, rec_given, path_given, same):
+            r_ = peval(t_, {("cmp", "is", rec, NONE): not rec_given, ("cmp", "isnot", rec, NONE): rec_given,
+                            ("cmp", "is", npath, NONE): not path_given, ("cmp", "isnot", npath, NONE): path_given})
+            asg = {}
+            for x in walk(r_):
+                if x[0] == "cmp" and x[1] in ("is", "isnot") and x[3] == NONE and any(y == npath for y in walk(x[2])):
+                    asg[x] = path_given == (x[1] == "isnot")
+                elif x[0] == "cmp" and x[1] in ("eq", "ne") and any(y == npath for y in walk(x)) and any(y[0] == "attr" and y[2] == "path" for y in walk(x)):
+                    asg[x] = same == (x[1] == "eq")
+            return _truth(peval(r_, asg)) if asg else _truth(r_)
+        okd = True
+        for rg, pg, same, want_rej, what in ((True, False, True, False, "a recording and no notated path"), (True, True, True, False, "a recording and its own path notated"),
+                                             (False, True, True, False, "no recording but a notated path"), (False, False, True, True, "neither a recording nor a notated path"),
+                                             (True, True, False, True, "a recording and another file's path notated")):
+            rej = [decide(r.live, rg, pg, same) for r in s.raises if not r.in_handler]
+            if None in rej:
+                ctx.undec("R10.9", site, f"cannot decide the rejections for {what}")
+                okd = False
+            elif any(rej) != want_rej:
+                ctx.bad("R10.9", file, "annotation_to_clip_annotation", f"annotation with {what}",
+                        f"an annotation with {what} is {'rejected' if any(rej) else 'accepted'}", s.node.lineno)
+                okd = False
+        # `annot.seq` is one sequence or a list of sequences: a list is iterated as it is, a single sequence as a list of one
+        seqcalls = [e for e in s.calls if e.term[1] == ("global", f"{SEQ}:sequence_to_annotations", "func") and e.loops]
+        if seqcalls:
+            L = s.loops[seqcalls[0].loops[-1]]
+            isl = [x for x in walk(L.iter) if x[0] == "call" and x[1] == ("builtin", "isinstance") and len(x[2]) == 2 and x[2][1] in (("builtin", "list"), ("tuple", (("builtin", "list"), ("builtin", "tuple"))))]
+            if isl:
+                src_ = isl[0][2][0]
+                as_list = peval(L.iter, {isl[0]: True, ("not", isl[0]): False})
+                as_one = peval(L.iter, {isl[0]: False, ("not", isl[0]): True})
+                if as_list == src_ and as_one == ("list", (src_,)):
+                    ctx.ok("R10.9", site, "a list of sequences is iterated as it is, a single sequence as a list of one")
+                else:
+                    ctx.bad("R10.9", file, "annotation_to_clip_annotation", f"for sequence in {show(L.iter)[:60]}",
+                            f"the sequences are iterated as {show(as_list)[:50]} when annot.seq is a list and as {show(as_one)[:50]} when it is a "
+                            f"single sequence: a list must be iterated as it is and a single sequence wrapped into a list of one", seqcalls[0].lineno)
+                    okd = False
+        if okd:
+            ctx.ok("R10.9", site, "imported with a recording or a notated path; rejected with neither or with a foreign path")
+
     # ------------------------------------------------------------------ R10.6
     def mapping_scenario(self, t, m, label, hit: Optional[bool], hitval):
         """Rewrite lookups of `label` in mapping parameter m for the scenario hit / miss (None: mapping not given)."""
@@ -734,6 +816,7 @@ class C10:
 
 def run(ctx: Ctx):
     ctx.rule("R10.1", "dimension analysis of imported coordinates on every path", 30)
+    ctx.rule("R10.9", "annotation-level converters dispatch on the format and accept what is convertible", 2)
     ctx.rule("R10.8", "every imported coordinate is read from its own field of the element, on every path", 30)
     ctx.rule("R10.2", "export fields from bounds positions; floor sample indices; Nyquist cap", 12)
     ctx.rule("R10.3", "cast / raise switches reject exactly the documented cases", 4)
@@ -745,6 +828,7 @@ def run(ctx: Ctx):
     c.check_import_units()
     c.check_export()
     c.check_policy()
+    c.check_annotation_dispatch()
     c.check_label_to_tags()
     c.check_label_from()
     # labels are written as key_from_term(tag.term) + separator + value and parsed back through term_from_key: "labels preserved"
